@@ -757,3 +757,59 @@ func ruleEqualCoversBehaviour(p *Program, r *Report) {
 }
 
 func init() { register("C02", Rule{"R02h", ruleEqualCoversBehaviour}) }
+
+// R02i: Hash must not see more than Equal.  Number.Equal compares with ==, for which +0 and -0 are one value; a hash
+// of the bit pattern tells them apart, so equal numbers land in different trie branches: {0 * -1} = {0} is false and
+// a lookup of 0 misses the key -0.  (frozen's hash.Float64 normalises the zeros; math.Float64bits does not.)
+func ruleHashNoBitPattern(p *Program, r *Report) {
+	r.Begin("R02i", "Hash sees no more than Equal: no Hash method of a value type (nor a module function it calls) takes the bit pattern of a float (math.Float64bits / Float32bits, unsafe reinterpretation): == identifies +0 and -0, the bit pattern does not", 15)
+	defer r.End()
+	for _, t := range p.ValueTypes() {
+		hm := p.MethodOf(t, "Hash")
+		if hm == nil {
+			continue
+		}
+		r.Fn(FnName(hm))
+		bad := ""
+		var pos token.Pos
+		seen := map[*ssa.Function]bool{}
+		var walk func(f *ssa.Function, depth int)
+		walk = func(f *ssa.Function, depth int) {
+			if f == nil || seen[f] || f.Blocks == nil || depth > 4 {
+				return
+			}
+			seen[f] = true
+			ForEachInstr(f, func(ins ssa.Instruction) {
+				switch x := ins.(type) {
+				case *ssa.Call:
+					nm := CalleeName(&x.Call)
+					if nm == "math.Float64bits" || nm == "math.Float32bits" {
+						if bad == "" {
+							bad, pos = nm, x.Pos()
+						}
+					}
+					if g := x.Call.StaticCallee(); g != nil && InRepo(g) {
+						walk(g, depth+1)
+					}
+				case *ssa.Convert:
+					// float → unsafe.Pointer tricks show up as Convert to unsafe.Pointer of an address
+					if b, ok := x.Type().Underlying().(*types.Basic); ok && b.Kind() == types.UnsafePointer {
+						if bad == "" {
+							bad, pos = "unsafe.Pointer conversion", x.Pos()
+						}
+					}
+				}
+			})
+		}
+		walk(hm, 0)
+		name := shortT(Deref(t).(*types.Named))
+		r.Check(bad == "", "hash@"+name, "hashes values, not bit patterns", fmt.Sprintf("%s.Hash goes through %s: +0 and -0 are equal under == but have different bit patterns, so two equal values hash differently — sets that hold one do not equal sets that hold the other, and lookups miss", name, bad), func() token.Pos {
+			if bad != "" {
+				return pos
+			}
+			return hm.Pos()
+		}())
+	}
+}
+
+func init() { register("C02", Rule{"R02i", ruleHashNoBitPattern}) }
